@@ -15,9 +15,10 @@ RULE = ("correspondence: one driver line per call of to_long / from_long / b2a_b
         "convertbits / segwit decode / encode / parse_bech32(_or_32m); distinct = distinct line; non-trivial = the model "
         "returns a value other than an exception or None")
 PARTIAL = [
-    "<=4-error detection is proved for the data part of a string with unchanged human-readable part and separator, "
-    "under the same checksum constant (see meta note); errors that turn Bech32 into Bech32m or move the separator are "
-    "covered at segwit-address level only by the direct checks",
+    "C11_partial: detection of exactly FOUR changed characters at segwit-address level is proved for errors anywhere in "
+    "the string EXCEPT when the witness version moves between 0 and non-zero (exclusion predicate version_flip; "
+    "C11_refuted_bech32m_flip shows the exception is real: known finding bech32-bech32m-4-error-flip, inherent to "
+    "BIP350); up to three changed characters are rejected without exception (C11_segwit_detects_3_errors)",
 ]
 TRUSTED = [
     "Python str modelled as list of code points; str.encode('utf8') hand-modelled; bytes.decode('utf8') modelled for ASCII "
@@ -444,6 +445,9 @@ def model_cases(rng, tier):
         yield Case("bech32_decode %s %s" % (S(s), arg(90)), (lambda s=s: call(_dec3, s)))
         yield Case("parse_bech32_or_32m " + S(s), (lambda s=s: call(_parse, _ps.parse_bech32_or_32m, s)))
         yield Case("parse_bech32 " + S(s), (lambda s=s: call(_parse, _ps.parse_bech32, s)))
+    for pc in flip_cases(rng, "quick"):                  # the Bech32 <-> Bech32m switching patterns
+        for hrp, s in ((pc.inp["hrp"], pc.inp["s"]), (pc.inp["hrp"], pc.inp["t"])):
+            yield Case("decode %s %s" % (S(hrp), S(s)), (lambda hrp=hrp, s=s: call(_seg_decode, hrp, s)))
     for hrp, s in _bech_strings(rng, "quick")[::25]:
         for m in (len(s) - 1, len(s), 0, 1000):
             yield Case("bech32_decode %s %s" % (S(s), arg(m)), (lambda s=s, m=m: call(_dec3, s, m)))
@@ -589,7 +593,8 @@ def chk_segwit_string(hrp, s):
 def chk_corruption(hrp, s, t):
     """t has the length of the valid string s and differs in 1..4 characters: must be rejected
     (unless it is the same string in the other case)"""
-    if _bm.decode(hrp, s) == (None, None):
+    r0 = _bm.decode(hrp, s)
+    if r0 == (None, None):
         return {"kind": "harness-base-string-invalid"}
     k = sum(1 for a, b in zip(s, t) if a != b)
     if len(s) != len(t) or not (1 <= k <= 4) or s.lower() == t.lower():
@@ -597,9 +602,63 @@ def chk_corruption(hrp, s, t):
     r = _bm.decode(hrp, t)
     if r != (None, None):
         same_prefix = t[:len(hrp) + 1].lower() == s[:len(hrp) + 1].lower()
-        return {"kind": "corruption-accepted", "errors": k, "version_symbol_changed": t[len(hrp) + 1] != s[len(hrp) + 1],
+        return {"kind": "corruption-accepted", "errors": k, "ver_from": r0[0], "ver_to": r[0],
                 "hrp_untouched": same_prefix, "got": str(r)}
     return None
+
+
+# ---- the Bech32 <-> Bech32m switch: the only <=4-character errors a BIP350 decoder can accept ------------------
+def _lstep(c):
+    top = c >> 25
+    c = (c & 0x1FFFFFF) << 5
+    for i in range(5):
+        if (top >> i) & 1:
+            c ^= _GEN[i]
+    return c
+
+
+def c11_flip_patterns():
+    """all error patterns of weight <= 4 that change the version symbol between 0 and 1..16 and have syndrome
+    1 ^ BECH32M_CONST, for the two data-part lengths a v0 address can have (39, 59): meet-in-the-middle search.
+    Each pattern is (L, {distance from the end: xor value})."""
+    St = [list(range(32))]
+    for d in range(1, 60):
+        St.append([_lstep(x) for x in St[-1]])
+    C = 1 ^ M_CONST
+    pats = set()
+    for L in (39, 59):
+        Z0 = [(0, None, None)] + [(St[d][b], d, b) for d in range(0, L - 1) for b in range(1, 32)]
+        T = {}
+        for a in range(1, 17):
+            for (x, d, b) in Z0:
+                T[St[L - 1][a] ^ C ^ x] = (a, d, b)
+        for i in range(len(Z0)):
+            u = Z0[i][0]
+            for j in range(i + 1, len(Z0)):
+                w = u ^ Z0[j][0]
+                if w in T:
+                    a, d1, b1 = T[w]
+                    errs = {L - 1: a}
+                    for d, b in ((d1, b1), Z0[i][1:], Z0[j][1:]):
+                        if d is not None:
+                            errs[d] = errs.get(d, 0) ^ b
+                    pats.add((L, tuple(sorted((k, v) for k, v in errs.items() if v))))
+        if 0 in T:
+            a, d1, b1 = T[0]
+            pats.add((L, tuple(sorted([(L - 1, a)] + ([(d1, b1)] if d1 is not None else [])))))
+    return sorted(pats)
+
+
+def _apply_pattern(s, errs):
+    t = list(s)
+    for d, b in errs:
+        i = len(s) - 1 - d
+        t[i] = B32[B32.index(t[i]) ^ b]
+    return "".join(t)
+
+
+FLIP_GOOD = "bc1q82qwhphpzr8upm6xumv4ehyxt8d9dqpmjga6lu"
+FLIP_BAD = "bc1t82qwhphpzr8upm6xumv4eh2xt8d9dqpmegm6lu"
 
 
 def _pc(name, inp, f):
@@ -649,6 +708,22 @@ def prop_cases(rng, tier):
         hrp, s = rng.choice(valid)
         t = _corrupt(rng, s, rng.choice([1, 2, 3, 3, 4, 4]), B32 if rng.random() < 0.8 else alpha_all)
         yield _pc("corruption", {"hrp": hrp, "s": s, "t": t}, (lambda hrp=hrp, s=s, t=t: chk_corruption(hrp, s, t)))
+    for pc in flip_cases(rng, tier):
+        yield pc
+
+
+def flip_cases(rng, tier):
+    """direct checks built from every flip pattern, in both directions (v0 -> vN and vN -> v0)"""
+    yield _pc("corruption", {"hrp": "bc", "s": FLIP_GOOD, "t": FLIP_BAD}, (lambda: chk_corruption("bc", FLIP_GOOD, FLIP_BAD)))
+    for L, errs in c11_flip_patterns():
+        n = 20 if L == 39 else 32
+        a = dict(errs)[L - 1]
+        for _ in range(2 if tier == "quick" else 20):
+            prog = bytes(rng.getrandbits(8) for _ in range(n))
+            for hrp, ver in (("bc", 0), ("tb", a)):
+                s = ref_segwit_encode(hrp, ver, prog)
+                t = _apply_pattern(s, errs)
+                yield _pc("corruption", {"hrp": hrp, "s": s, "t": t}, (lambda hrp=hrp, s=s, t=t: chk_corruption(hrp, s, t)))
 
 
 def _str(x):
@@ -676,10 +751,15 @@ def replay_input(check, inp):
 
 
 def classify(pc, r):
+    if pc.name == "corruption" and r.get("kind") == "corruption-accepted" and r.get("errors") == 4 \
+            and (r.get("ver_from") == 0) != (r.get("ver_to") == 0) and r.get("hrp_untouched"):
+        return "bech32-bech32m-4-error-flip"
     return None
 
 
-KNOWN_REPLAYS = {}
+KNOWN_REPLAYS = {
+    "bech32-bech32m-4-error-flip": lambda: chk_corruption("bc", FLIP_GOOD, FLIP_BAD),
+}
 
 
 def search(rng, tier, disagreements, known_ids):
